@@ -18,6 +18,7 @@ by a comment `#…` or `//…` whose body contains no `'\n'` (lines produced by 
 never contain `'\n'`).
 -/
 namespace Resynth.C13
+open Sem
 open Lex
 
 /-! ## 1. blank and comment-only lines -/
